@@ -101,6 +101,12 @@ impl Parser {
 
         // not enough data
         if src.len() < frame_len {
+            // a frame that announces more than the allowed size is refused as soon as its header is
+            // known; waiting for the payload would mean buffering it first
+            if length > max_size {
+                return Err(ProtocolError::Overflow);
+            }
+
             let min_length = min(length, max_size);
             let required_cap = match idx.checked_add(min_length) {
                 Some(cap) => cap,
